@@ -8,6 +8,7 @@ import (
 	"math/big"
 	"os"
 	"regexp"
+	"strconv"
 	"strings"
 
 	"verif/internal/drive"
@@ -24,8 +25,16 @@ var (
 	single07   = []string{"not", "if", "then", "else", "additionalItems", "contains", "additionalProperties", "propertyNames", "contentSchema"}
 	array07    = []string{"allOf", "anyOf", "oneOf", "items"}
 	map07      = []string{"definitions", "properties", "patternProperties", "dependencies"}
-	keyAlpha   = []string{"", "/", "~", "~0", "~1", "~01", "~2", "%", "%25", " ", "é", "0", "1", "01", "-", "+0", "a/b", "a~b", "#", "?", "a", "A", "$defs", "properties", "\"", "\\", "a b/c~d%e"}
+	keyAlpha   = []string{"", "/", "~", "~0", "~1", "~01", "~2", "%", "%25", " ", "é", "0", "1", "01", "-", "+0", "a/b", "a~b", "#", "?", "a", "A", "$defs", "properties", "\"", "\\", "a b/c~d%e", "items", "type", "not", "allOf", "dependencies", "10"}
 )
+
+// arrayLen: allOf gets 12 elements (two-digit indices), the other arrays 3.
+func arrayLen(k string) int {
+	if k == "allOf" {
+		return 12
+	}
+	return 3
+}
 
 type loc struct {
 	ptr    string // RFC 6901 pointer relative to the container
@@ -57,7 +66,7 @@ func container(d ref.Draft, next *int, nested func(marker int) string) (string, 
 	}
 	for _, k := range arrays {
 		var es []string
-		for i := 0; i < 3; i++ {
+		for i := 0; i < arrayLen(k); i++ {
 			es = append(es, mk(fmt.Sprintf("/%s/%d", k, i)))
 		}
 		parts = append(parts, fmt.Sprintf(`%q:[%s]`, k, strings.Join(es, ",")))
@@ -102,6 +111,16 @@ func mkDoc(d ref.Draft, cont string, frag string) string {
 	return fmt.Sprintf(`{"$defs":{"c":%s},"$ref":%s}`, cont, fb)
 }
 
+// mkDocEmb places the reference inside an embedded resource r that holds the container; the
+// document root holds a decoy container with other markers under the same pointer text.
+func mkDocEmb(d ref.Draft, cont, decoy, frag string) string {
+	fb, _ := json.Marshal("#" + frag)
+	if d == ref.D07 {
+		return fmt.Sprintf(`{"$schema":"http://json-schema.org/draft-07/schema#","definitions":{"r":{"$id":"http://h/r.json","definitions":{"c":%s},"allOf":[{"$ref":%s}]},"c":%s},"allOf":[{"$ref":"#/definitions/r"}]}`, cont, fb, decoy)
+	}
+	return fmt.Sprintf(`{"$defs":{"r":{"$id":"http://h/r.json","$defs":{"c":%s},"$ref":%s},"c":%s},"$ref":"#/$defs/r"}`, cont, fb, decoy)
+}
+
 func build(thorough bool) []doc {
 	var docs []doc
 	for _, d := range []ref.Draft{ref.D2020, ref.D07} {
@@ -123,6 +142,23 @@ func build(thorough bool) []doc {
 				docs = append(docs, doc{mkDoc(d, cont, raw), l.marker, d, "valid(raw) " + p, markers})
 			}
 		}
+		// the same pointers read from inside an embedded resource (quick: every 3rd location)
+		n5 := 5000
+		decoy, dlocs := container(d, &n5, nil)
+		both := append([]int(nil), markers...)
+		for _, l := range dlocs {
+			both = append(both, l.marker)
+		}
+		estep := 3
+		if thorough {
+			estep = 1
+		}
+		for li := 0; li < len(locs); li += estep {
+			l := locs[li]
+			p := prefix + l.ptr
+			docs = append(docs, doc{mkDocEmb(d, cont, decoy, ref.FragmentEncode(p)), l.marker, d, "valid (inside embedded resource) " + p, both})
+		}
+		docs = append(docs, doc{mkDocEmb(d, cont, decoy, ref.FragmentEncode(prefix[:len(prefix)-1]+"r")), -1, d, "invalid (inside embedded resource: names a location of the document root) " + prefix[:len(prefix)-1] + "r", both})
 		// invalid pointers
 		for _, l := range locs {
 			for _, bad := range mutate(l.ptr) {
@@ -133,7 +169,9 @@ func build(thorough bool) []doc {
 		for _, bad := range []string{"/type", "/type/0", "/required", "/required/0", "/enum", "/enum/0", "/const", "/const/not", "/default", "/examples/0", "/title", "/x-unknown",
 			"/properties", "/allOf", "/$defs", "/definitions", "/dependencies/strs", "/dependencies/strs/0", "/dependentRequired/a", "/dependentRequired/a/0",
 			"/Defs/a", "/PropertyOrder", "/AllOf/0", "/Not", "/Extra", "/Items", "/ItemsArray/0", "/DependencySchemas/a", "/PrefixItems/0", "/$vocabulary/x", "/$vocabulary",
-			"/nope", "/", "//", "/not/", "/not/not", "/allOf/0/", "/allOf//0", "/properties/a/b", "/$id", "/$ref", "/$anchor"} {
+			"/nope", "/", "//", "/not/", "/not/not", "/not/allOf/0", "/not/properties/a", "/not/items/0", "/not/items", "/not/dependencies/a", "/not/$defs/a", "/contains/0", "/if/then", "/allOf/0/allOf/0", "/properties/a/properties/a",
+			// '~' not followed by 0 or 1 is not an RFC 6901 escape; the keys "~", "~2", "a~b" exist, so a lenient reading would select them
+			"/properties/~", "/properties/~2", "/properties/a~b", "/properties/~x", "/properties/a~", "/patternProperties/~2", "/$defs/~", "/definitions/~", "/$defs/~2", "/definitions/a~b", "/dependentSchemas/~", "/dependencies/~2", "/~0not", "/no~t", "/allOf/0/", "/allOf//0", "/properties/a/b", "/$id", "/$ref", "/$anchor"} {
 			p := prefix + bad
 			docs = append(docs, doc{mkDoc(d, cont, ref.FragmentEncode(p)), -1, d, "invalid " + p, markers})
 		}
@@ -205,9 +243,13 @@ func mutate(p string) []string {
 	if len(segs) == 1 {
 		head = ""
 	}
-	isIdx := len(segs) == 2 && (last == "0" || last == "1" || last == "2") && (segs[0] == "allOf" || segs[0] == "anyOf" || segs[0] == "oneOf" || segs[0] == "prefixItems" || segs[0] == "items")
+	isIdx := len(segs) == 2 && (segs[0] == "allOf" || segs[0] == "anyOf" || segs[0] == "oneOf" || segs[0] == "prefixItems" || segs[0] == "items")
 	if isIdx {
-		for _, bad := range []string{"3", "03", "00", "-", "+0", "-0", "+1", " 0", "0 ", "0x0", "1e0", "0.0", "", "٠", "9223372036854775808", "18446744073709551616", "-1"} {
+		n := arrayLen(segs[0])
+		for _, bad := range []string{fmt.Sprint(n), fmt.Sprint(n + 1), "0" + last, last + "0", "1" + last + "0", "03", "00", "-", "+0", "-0", "+1", " 0", "0 ", "0x0", "1e0", "0.0", "", "٠", "9223372036854775808", "18446744073709551616", "-1"} {
+			if v, err := strconv.Atoi(bad); err == nil && strconv.Itoa(v) == bad && v >= 0 && v < n {
+				continue // a canonical index inside the array is a valid pointer
+			}
 			out = append(out, head+"/"+bad)
 		}
 		out = append(out, p+"/", p+"/0")
@@ -228,8 +270,8 @@ func unescape(s string) string {
 
 func Run(r *ev.Run) {
 	docs := build(r.Tier == "thorough")
-	r.Rule("for both drafts: a container schema with a uniquely marked subschema under every schema-valued, schema-array-valued (indices 0..2) and schema-map-valued keyword (27-key alphabet incl. '', '/', '~', '~0', '~01', '%', '%25', ' ', non-ASCII, digits, '-', quotes) is referenced by '#'+percent-encoded RFC 6901 pointer (and raw non-ASCII form); nested to depth 2; " +
-		"plus every invalid mutation (index = length, leading zeros, '-', signs, spaces, non-decimal digits, overflow, trailing slash, bad '~' escape, wrong letter case, Go field names, non-schema members). Valid pointers must select exactly the marked subschema (verdict vector over all markers), invalid ones must make Resolve fail. Documents are distinct by construction; every one is non-trivial")
+	r.Rule("for both drafts: a container schema with a uniquely marked subschema under every schema-valued, schema-array-valued (indices 0..2, allOf 0..11) and schema-map-valued keyword (33-key alphabet incl. keyword-like names 'items', 'type', 'not', 'allOf', 'dependencies', '', '/', '~', '~0', '~01', '%', '%25', ' ', non-ASCII, digits, '-', quotes) is referenced by '#'+percent-encoded RFC 6901 pointer (and raw non-ASCII form); nested to depth 2; " +
+		"also from inside an embedded $id resource whose pointers must be read relative to that resource while the document root holds a decoy container with other markers; plus every invalid mutation (index = length, a digit prepended or appended, pointers through absent containers, leading zeros, '-', signs, spaces, non-decimal digits, overflow, trailing slash, bad '~' escape, wrong letter case, Go field names, non-schema members). Valid pointers must select exactly the marked subschema (verdict vector over all markers), invalid ones must make Resolve fail. Documents are distinct by construction; every one is non-trivial")
 	r.Assume("the pointer of a location is built from the independent keyword table with RFC 6901 escaping and RFC 3986 fragment encoding (internal/ref/uri.go); R1 must agree with the constructed expectation (else harness error)")
 	r.Set("documents", len(docs))
 	par.For(len(docs), r.Expired, func(i int, j par.Journal) {
